@@ -7,4 +7,5 @@ import PyXABModel.Model.Sweep
 import PyXABModel.Model.SequOOL
 import PyXABModel.Model.Meta
 import PyXABModel.Model.Zooming
+import PyXABModel.Model.VROOM
 import PyXABModel.Drv.Main
